@@ -36,7 +36,7 @@ var Plain = Cfg{Keys: PlainKeys, Nums: []string{"0", "1", "2", "7", "10", "-3", 
 
 func (c Cfg) Scalar() *rapid.Generator[*ref.V] {
 	return rapid.Custom(func(t *rapid.T) *ref.V {
-		switch rapid.IntRange(0, 6).Draw(t, "sk") {
+		switch Uniform(t, 0, 6, "sk") {
 		case 0:
 			return ref.Null()
 		case 1:
@@ -54,7 +54,7 @@ func (c Cfg) Value(depth int) *rapid.Generator[*ref.V] {
 	return rapid.Custom(func(t *rapid.T) *ref.V {
 		k := 0
 		if depth > 0 {
-			k = rapid.IntRange(0, 4).Draw(t, "vk")
+			k = Uniform(t, 0, 4, "vk")
 		}
 		switch k {
 		case 3:
@@ -69,7 +69,7 @@ func (c Cfg) Value(depth int) *rapid.Generator[*ref.V] {
 
 func (c Cfg) Array(depth int) *rapid.Generator[*ref.V] {
 	return rapid.Custom(func(t *rapid.T) *ref.V {
-		n := rapid.IntRange(0, c.Width).Draw(t, "alen")
+		n := Uniform(t, 0, c.Width, "alen")
 		a := ref.Arr()
 		for i := 0; i < n; i++ {
 			a.Arr = append(a.Arr, c.Value(depth-1).Draw(t, "e"))
@@ -80,7 +80,7 @@ func (c Cfg) Array(depth int) *rapid.Generator[*ref.V] {
 
 func (c Cfg) Object(depth int) *rapid.Generator[*ref.V] {
 	return rapid.Custom(func(t *rapid.T) *ref.V {
-		n := rapid.IntRange(0, c.Width).Draw(t, "olen")
+		n := Uniform(t, 0, c.Width, "olen")
 		o := ref.Obj()
 		for i := 0; i < n; i++ {
 			k := rapid.SampledFrom(c.Keys).Draw(t, "k")
@@ -108,26 +108,44 @@ func (c Cfg) Root() *rapid.Generator[*ref.V] {
 func (c Cfg) Mutate(t *rapid.T, v *ref.V, depth int) *ref.V {
 	out := v.Clone()
 	if out.K == ref.KObj {
-		n := rapid.IntRange(0, 3).Draw(t, "nmut")
+		n := Uniform(t, 1, 3, "nmut")
+		if OneIn(t, 8, "nomut") {
+			n = 0
+		}
 		for i := 0; i < n; i++ {
-			switch rapid.IntRange(0, 4).Draw(t, "mk") {
+			// members holding objects, preferred when recursing
+			var objKeys []string
+			for j, k := range out.Keys {
+				if out.Vals[j].K == ref.KObj {
+					objKeys = append(objKeys, k)
+				}
+			}
+			switch Uniform(t, 0, 6, "mk") {
 			case 0: // delete
 				if len(out.Keys) > 0 {
 					out.Del(rapid.SampledFrom(out.Keys).Draw(t, "dk"))
 				}
 			case 1: // add or replace under a pool name
 				out.Set(rapid.SampledFrom(c.Keys).Draw(t, "ak"), c.Value(depth).Draw(t, "nv"))
-			case 2, 3: // recurse
-				if len(out.Keys) > 0 {
+			case 2, 3, 4: // recurse, into an object member when there is one
+				if len(objKeys) > 0 && depth > 0 {
+					k := rapid.SampledFrom(objKeys).Draw(t, "ok")
+					cv, _ := out.Get(k)
+					out.Set(k, c.Mutate(t, cv, depth-1))
+				} else if len(out.Keys) > 0 {
 					k := rapid.SampledFrom(out.Keys).Draw(t, "rk")
 					cv, _ := out.Get(k)
 					out.Set(k, c.Mutate(t, cv, depth-1))
+				} else {
+					out.Set(rapid.SampledFrom(c.Keys).Draw(t, "ak2"), c.Value(depth).Draw(t, "nv2"))
 				}
-			case 4: // replace an existing member's value (often a type change)
+			case 5: // replace an existing member's value (often a type change)
 				if len(out.Keys) > 0 {
 					k := rapid.SampledFrom(out.Keys).Draw(t, "ck")
 					out.Set(k, c.Value(depth).Draw(t, "cv"))
 				}
+			case 6: // a new nested object that shares nothing yet
+				out.Set(rapid.SampledFrom(c.Keys).Draw(t, "nk"), c.Object(max(depth, 1)).Draw(t, "no"))
 			}
 		}
 		return out
@@ -137,7 +155,7 @@ func (c Cfg) Mutate(t *rapid.T, v *ref.V, depth int) *ref.V {
 		out.Arr[i] = c.Mutate(t, out.Arr[i], depth-1)
 		return out
 	}
-	if rapid.IntRange(0, 2).Draw(t, "keep") > 0 {
+	if !OneIn(t, 3, "swap") {
 		return out
 	}
 	return c.Value(depth).Draw(t, "repl")
